@@ -164,10 +164,10 @@ def search(ctx):
 
 def run(ctx) -> int:
     proof = common.proof_stage(ctx.pid)
-    complete = trees(ctx, 5 if ctx.thorough else 4, 3000 if ctx.thorough else 300, 40 if ctx.thorough else 6)
+    complete = trees(ctx, 5 if ctx.thorough else 4, 3000 if ctx.thorough else 600, 40 if ctx.thorough else 12)
     if complete:
         ctx.exhaustive.append("every deterministic test (complete verdict tree) for the listed arrangements of n <= 4 (quick) / 5 (thorough) bracket-bearing atoms")
-    families(ctx, 60 if ctx.thorough else 8)
+    families(ctx, 60 if ctx.thorough else 20)
     return common.decide(ctx, proof, RULE, search=search,
                          assumptions=["the fixpoint clauses are checked by the monitor on the real code and tied to the Lean models of the two passes by "
                                       "proposal-by-proposal correspondence; the Lean theorems cover the passes' bookkeeping (see DESIGN.md §4 C13)"])
